@@ -40,10 +40,17 @@ def check(c):
         exp[F(lcc(n, [e for e, k in zip(edges, keep) if k]), n)] += p ** sum(keep) * (1 - p) ** (M - sum(keep))
     got = Counter(); total = 0
     ch = Chooser(); saved = bp.random.random
+    # The law over all outcomes can be computed only while every random decision goes through the scripted random.random(); the statement does not prescribe that mechanism
+    # (a count followed by random.sample has the same law), so a run that uses another primitive is not evaluated by this clause instead of being judged by it.
+    class Unscripted(BaseException): pass
+    def unscripted(*a, **k): raise Unscripted()
+    others = {nm: getattr(bp.random, nm) for nm in ("sample", "choices", "choice", "shuffle", "randrange", "randint", "uniform", "getrandbits")}
+    for nm in others: setattr(bp.random, nm, unscripted)
     try:
         while True:
             ch.reset(); bp.random.random = lambda: GRID[ch.pick(4)]
-            r = guarded("bond_percolate", bp.bond_percolate, G, phi)
+            try: r = guarded("bond_percolate", bp.bond_percolate, G, phi)
+            except Unscripted: return []
             if snap(G) != before: raise Violation("bond_percolate.input_untouched", f"the input graph changed (phi={phi}): {snap(G)[1][:3]} vs {before[1][:3]}")
             fr = F(r).limit_denominator(1000)
             if (fr * n).denominator != 1 or not (F(1, n) <= fr <= 1): raise Violation("bond_percolate.range", f"returned {r} for N={n}")
@@ -53,7 +60,9 @@ def check(c):
             got[fr] += w; total += 1
             if not ch.advance(): break
             if total > 5000: return []
-    finally: bp.random.random = saved
+    finally:
+        bp.random.random = saved
+        for nm, f in others.items(): setattr(bp.random, nm, f)
     for k in set(exp) | set(got):
         if exp.get(k, 0) != got.get(k, 0):
             raise Violation("bond_percolate.fraction_of_largest_component_of_kept_edges", f"phi={phi}, N={n}, edges {edges}: P(result={k}) = {got.get(k, 0)} over all draw sequences, definition gives {exp.get(k, 0)}")
